@@ -319,7 +319,7 @@ func randAny(r *rng, c *genCfg, depth int) *hv {
 				key = &hv{kind: "text", s: randText(r)}
 			}
 			ks := key.gotext()
-			if used[ks] && !r.chance(c.invalid, 100) {
+			if used[ks] && (c.goSide || !r.chance(c.invalid, 100)) {
 				continue
 			}
 			used[ks] = true
@@ -483,6 +483,23 @@ func randLabelSet(r *rng, c *genCfg, prot bool, n int) []hentry {
 		key := lab.kind + strconv.FormatInt(lab.i, 10) + string(lab.s)
 		if used[key] && !r.chance(c.invalid, 100) {
 			continue
+		}
+		if used[key] && c.goSide {
+			// a Go map cannot hold the same key twice: duplicates need another spelling
+			if lab.kind != "int" || lab.i == 1 || lab.i == 258 {
+				continue
+			}
+			ok := false
+			for try := 0; try < 20 && !ok; try++ {
+				lab.spell = spellings[r.intn(len(spellings))]
+				ok = fitsSpell(lab.spell, lab.i) && !used[key+"/"+lab.spell]
+			}
+			if !ok {
+				continue
+			}
+		}
+		if lab.kind == "int" {
+			used[key+"/"+lab.spell] = true
 		}
 		if lab.kind == "int" && lab.i == 2 {
 			continue // crit added last
